@@ -18,9 +18,11 @@ from . import core
 def reproduce(prop, paths):
     """Re-run each reported case in a fresh interpreter (alone, and - if it was recorded with the calls that
     preceded it - after those calls).  A failure that cannot be reproduced is a defect of the machinery."""
+    nhist = 0
     for path in paths:
-        r = subprocess.run([sys.executable, "-m", "mc.replay", path], cwd=core.VERIF,
+        r = subprocess.run([sys.executable, "-m", "mc.replay", path] + (["--no-shrink"] if nhist >= 2 else []), cwd=core.VERIF,
                            capture_output=True, text=True)
+        nhist += "history-dependent" in r.stdout
         if r.returncode != 1:
             raise core.HarnessError("violation %s does not reproduce in a fresh interpreter (exit %d): %s"
                                     % (path, r.returncode, (r.stdout + r.stderr)[-500:]))
